@@ -9,6 +9,7 @@ import SpoxModel.Generated.Conforms_v21
 import SpoxModel.Generated.Conforms_ml_v3
 import SpoxModel.Generated.Conforms_ml_v4
 import SpoxModel.Generated.Conforms_ml_v5
+import SpoxModel.Generated.AdaptAttrInventory
 /-!
 # C11 — every shipped operator constructor conforms to its ONNX schema
 
@@ -213,6 +214,207 @@ theorem shipped_call (e : Entry) (he : e ∈ allPairs)
   simp only [emitNode] at hc
   exact ⟨hc.2.2.2.1, hc.2.2.2.2.1⟩
 
+/-! ## requiredness and defaults: every spelling of an attribute argument, error branch included -/
+
+/-- **conforming_call_total.** For *any* constructor/schema pair with `conformsTo c s` and *any*
+    spelling of each attribute argument — left out, `None`, a value of the attribute's kind, a value
+    that is not (`Spell`) — the `Attributes(...)` expression of the constructor body
+    1. raises (`TypeError` family) **iff** some schema attribute is spelled in a way its schema entry
+       refuses: a malformed value; left out although required; `None` although required *or*
+       although the schema has a default for it (`AttrX(None, …)` raises, it never invents a value);
+    2. otherwise yields, for each schema attribute in turn: the value given under the schema name;
+       else (left out, or `None` on an optional attribute without default) the schema default if
+       there is one; else nothing. -/
+theorem conforming_call_total (c : Ctor) (s : Schema) (h : conformsTo c s = true)
+    (spelled : String → Spell) :
+    (callAttrsE c spelled = none ↔ ∃ a ∈ s.attrs, rejects a (spelled a.name) = true) ∧
+    (∀ l, callAttrsE c spelled = some l →
+      l = List.zipWith (acceptedAttr spelled) s.attrs c.attrWires ∧
+      emitAttrs l = (List.zipWith (acceptedAttr spelled) s.attrs c.attrWires).filterMap id) := by
+  simp only [conformsTo, Bool.and_eq_true, beq_iff_eq, and_assoc] at h
+  obtain ⟨_, _, _, _, _, _, _, _, h8, _⟩ := h
+  have hat := callAttrsE_of_attrsOK c.params spelled _ _ _ h8
+  have hlen := attrsOK_length _ _ _ _ h8
+  unfold callAttrsE
+  rw [hat]
+  constructor
+  · rw [allSome_eq_none]
+    constructor
+    · intro hm
+      obtain ⟨i, hi, he⟩ := List.getElem_of_mem hm
+      simp only [List.getElem_zipWith, expectedAttrE] at he
+      refine ⟨s.attrs[i]'(by simp at hi; omega), List.getElem_mem _, ?_⟩
+      cases hr : rejects (s.attrs[i]'(by simp at hi; omega)) (spelled (s.attrs[i]'(by simp at hi; omega)).name) with
+      | true => rfl
+      | false => simp [hr] at he
+    · intro ⟨a, ha, hr⟩
+      obtain ⟨i, hi, he⟩ := List.getElem_of_mem ha
+      have hi' : i < c.attrWires.length := by omega
+      have : (List.zipWith (expectedAttrE spelled) s.attrs c.attrWires)[i]'(by simp; omega) = none := by
+        simp [List.getElem_zipWith, expectedAttrE, he, hr]
+      rw [← this]
+      exact List.getElem_mem _
+  · intro l hl
+    rw [allSome_eq_some] at hl
+    have key : l = List.zipWith (acceptedAttr spelled) s.attrs c.attrWires := by
+      apply List.ext_getElem
+      · have := congrArg List.length hl
+        simpa using this.symm
+      · intro i h1 h2
+        have := congrArg (fun x => x[i]?) hl
+        simp only [List.getElem?_map, List.getElem?_zipWith] at this
+        simp only [List.length_zipWith] at h2
+        rw [List.getElem?_eq_getElem (by omega), List.getElem?_eq_getElem (by omega),
+          List.getElem?_eq_getElem h1] at this
+        simp only [Option.map_some, Option.some.injEq, expectedAttrE] at this
+        split at this
+        · cases this
+        · simp only [Option.some.injEq] at this
+          simp [List.getElem_zipWith, this]
+    exact ⟨key, by rw [emitAttrs_eq_filterMap, key]⟩
+
+/-- **none_never_invents.** `None` on a *required* attribute, or on an attribute the schema has a
+    default for, makes a conforming constructor raise — whatever the other arguments are. In
+    particular `cast(x, to=None)` cannot come out as `to=DOUBLE`, nor `random_normal(dtype=None)` as
+    anything but an exception. -/
+theorem none_never_invents (c : Ctor) (s : Schema) (h : conformsTo c s = true)
+    (spelled : String → Spell) (a : SAttr) (ha : a ∈ s.attrs)
+    (hn : spelled a.name = Spell.none) (hreq : a.required = true ∨ a.default ≠ Val.none) :
+    callAttrsE c spelled = none := by
+  refine ((conforming_call_total c s h spelled).1).mpr ⟨a, ha, ?_⟩
+  rcases hreq with hr | hd
+  · simp [rejects, hn, hr]
+  · simp [rejects, hn, hd]
+
+/-- a malformed value makes a conforming constructor raise; so does leaving out a required attribute -/
+theorem malformed_raises (c : Ctor) (s : Schema) (h : conformsTo c s = true)
+    (spelled : String → Spell) (a : SAttr) (ha : a ∈ s.attrs)
+    (hb : spelled a.name = Spell.bad ∨ (spelled a.name = Spell.omitted ∧ a.required = true)) :
+    callAttrsE c spelled = none := by
+  refine ((conforming_call_total c s h spelled).1).mpr ⟨a, ha, ?_⟩
+  rcases hb with hb | ⟨hb, hr⟩
+  · simp [rejects, hb]
+  · simp [rejects, hb, hr]
+
+/-- the well-formed calls of `conforming_call` are the `ok`/`omitted` spellings: on those the two
+    call models agree (so `callAttrsE` extends `callAttrs`, it does not replace it) -/
+theorem total_extends_call (c : Ctor) (s : Schema) (h : conformsTo c s = true)
+    (supplied : String → Option Val) (l : List (Option (String × Val)))
+    (hl : callAttrsE c (fun n => match supplied n with | some v => Spell.ok v | none => Spell.omitted) = some l) :
+    l = callAttrs c supplied := by
+  obtain ⟨hk, _⟩ := (conforming_call_total c s h _).2 l hl
+  have h' := h
+  simp only [conformsTo, Bool.and_eq_true, beq_iff_eq, and_assoc] at h'
+  obtain ⟨_, _, _, _, _, _, _, _, h8, _⟩ := h'
+  rw [hk, callAttrs_eq, callAttrs_of_attrsOK c.params supplied _ _ _ h8]
+  congr 1
+  funext a w
+  simp only [acceptedAttr, expectedAttr]
+  cases supplied a.name <;> rfl
+
+/-- non-vacuity on shipped constructors (this run's extraction): `cast` (required dtype attribute
+    `to`) refuses `None` and a missing `to`, and emits `to=INT32 (6)` for `np.int32`;
+    `random_normal` (dtype with schema default FLOAT, required `shape`) refuses `dtype=None` and
+    emits the default when `dtype` is left out; `eye_like` (optional dtype without default) accepts
+    `None` and emits nothing for it. -/
+example : callAttrsE Generated.Ctors.v17.f_cast (fun _ => Spell.none) = none ∧
+    callAttrsE Generated.Ctors.v17.f_cast (fun _ => Spell.omitted) = none ∧
+    callAttrsE Generated.Ctors.v17.f_cast (fun _ => Spell.bad) = none ∧
+    callAttrsE Generated.Ctors.v17.f_cast (fun _ => Spell.ok (Val.dtype "int32")) =
+      some [some ("to", Val.int 6)] := by decide +kernel
+example : callAttrsE Generated.Ctors.v17.f_random_normal
+      (fun n => if n = "shape" then Spell.ok (Val.ints [2]) else Spell.none) = none ∧
+    (callAttrsE Generated.Ctors.v17.f_random_normal
+      (fun n => if n = "shape" then Spell.ok (Val.ints [2]) else Spell.omitted)).map emitAttrs =
+      some [("dtype", Val.int 1), ("mean", Val.float 0), ("scale", Val.float 1065353216),
+            ("shape", Val.ints [2])] := by decide +kernel
+example : (callAttrsE Generated.Ctors.v17.f_eye_like (fun _ => Spell.none)).map emitAttrs = none ∧
+    (callAttrsE Generated.Ctors.v17.f_eye_like
+      (fun n => if n = "k" then Spell.omitted else Spell.none)).map emitAttrs =
+      some [("k", Val.int 0)] := by decide +kernel
+
+/-! ## the input side and the whole call, error branch included -/
+
+/-- **conforming_inputs_total.** For *any* pair with `conformsTo c s` and *any* spelling of every input
+    argument (left out / `None` / a Var / a sequence of Vars / something else), the `Inputs(...)`
+    expression
+    1. raises (`TypeError`) **iff** some formal input of the schema is spelled in a way its kind refuses:
+       a Single input that is not a Var (left out, `None`, a list); an Optional one that is neither a
+       Var nor `None`/left out; a Variadic one that is not a sequence of Vars (or left out where the
+       constructor has no `()` default);
+    2. otherwise binds, in schema order, every formal input to the argument of the same name — an
+       Optional input spelled `None` or left out as an empty slot. -/
+theorem conforming_inputs_total (c : Ctor) (s : Schema) (h : conformsTo c s = true)
+    (spelled : String → InSpell α) :
+    (callInputsE c spelled = none ↔
+      ∃ f ∈ s.inputs, rejectsIn f.2 (paramHasDefault c.params f.1) (spelled f.1) = true) ∧
+    (∀ l, callInputsE c spelled = some l → l = s.inputs.map fun f => acceptedIn f.2 (spelled f.1)) := by
+  simp only [conformsTo, Bool.and_eq_true, beq_iff_eq, and_assoc] at h
+  obtain ⟨_, _, _, _, _, h5, _, h7, _, hd, _⟩ := h
+  have hmap : c.cls.inputs.map (callInputE c spelled) = s.inputs.map (expectedInE c.params spelled) := by
+    rw [h5]
+    exact List.map_congr_left fun f hf => callInputE_of_inputsOK c s.inputs h7 hd spelled f hf
+  unfold callInputsE
+  rw [hmap]
+  constructor
+  · rw [allSome_eq_none]
+    simp only [List.mem_map, expectedInE]
+    constructor
+    · rintro ⟨f, hf, he⟩
+      refine ⟨f, hf, ?_⟩
+      cases hr : rejectsIn f.2 (paramHasDefault c.params f.1) (spelled f.1) with
+      | true => rfl
+      | false => simp [hr] at he
+    · rintro ⟨f, hf, hr⟩
+      exact ⟨f, hf, by simp [hr]⟩
+  · intro l hl
+    rw [allSome_eq_some] at hl
+    apply List.ext_getElem
+    · have := congrArg List.length hl
+      simpa using this.symm
+    · intro i h1 h2
+      have := congrArg (fun x => x[i]?) hl
+      simp only [List.getElem?_map] at this
+      simp only [List.length_map] at h2
+      rw [List.getElem?_eq_getElem h2, List.getElem?_eq_getElem h1] at this
+      simp only [Option.map_some, Option.some.injEq, expectedInE] at this
+      split at this
+      · cases this
+      · simp only [Option.some.injEq] at this
+        simp [this]
+
+/-! ## tie G for the spelling model: the override table of `_attributes.py` -/
+
+/-- **attr_classes_covered.** The classes of `src/spox/_attributes.py` as read from the source on this
+    run — bases, the methods each class body defines (which class overrides `__init__` / `maybe` /
+    `_validate` / `_to_onnx_deref`), class-level assignments (`_attribute_proto_type`), raise sites — are
+    exactly the ones `Conform.mkAttr` was written against. -/
+theorem attr_classes_covered :
+    Generated.AdaptAttrInventory.attrClasses = Conform.coveredAttrClasses :=
+  eq_of_beq (by decide +kernel)
+
+/-- **dtype_exits_covered.** … and so are the exits of `dtype_to_tensor_type`. -/
+theorem dtype_exits_covered :
+    Generated.AdaptAttrInventory.dtypeExits.map (fun e => (e.1, e.2.2)) = Conform.coveredDtypeExits := by
+  decide +kernel
+
+/-- **dtype_raises_typeerror.** Every `raise` of `dtype_to_tensor_type` raises a `TypeError` built on
+    the spot (no bare re-raise of numpy's / onnx's exception): the "TypeError family" of
+    `conforming_call_total` for dtype-valued attributes, whatever input triggers it. -/
+theorem dtype_raises_typeerror :
+    Generated.AdaptAttrInventory.dtypeExits.all
+      (fun e => e.1 != "raise" || e.2.1.startsWith "TypeError(") = true := by decide +kernel
+
+/-- only `Attr` and `_AttrIterable` define `maybe`; no class but `AttrTensor`, `_AttrIterable`,
+    `AttrTensors` (and the bases `Attr`, `_Ref`) has an `__init__` of its own -/
+theorem attr_overrides_shape :
+    (Generated.AdaptAttrInventory.attrClasses.filter (fun c => c.2.2.1.contains "maybe")).map (·.1)
+      = ["Attr", "_AttrIterable"] ∧
+    (Generated.AdaptAttrInventory.attrClasses.filter (fun c => c.2.2.1.contains "__init__")).map (·.1)
+      = ["Attr", "_Ref", "AttrTensor", "_AttrIterable", "AttrTensors"] ∧
+    (Generated.AdaptAttrInventory.attrClasses.filter (fun c => c.2.2.1.contains "_validate")).map (·.1)
+      = ["Attr", "AttrDtype", "AttrGraph"] := by decide +kernel
+
 open Generated.Conforms in
 /-- the deviating pairs conform in everything but their listed deviation -/
 theorem table_conforms_except : ∀ d ∈ deviatingPairs, entryOKExcept d.1 d.2 = true := by
@@ -327,6 +529,77 @@ theorem outputs_never_omitted (minN : Nat) (outs : List (String × FieldKind)) (
 theorem batchnorm_outputs_counterexample :
     (emitSlots 1 (initOutputs [("Y", .single), ("running_mean", .optional), ("running_var", .optional)] 0)).length = 3 := by
   decide
+
+/-- **conforming_call_full.** The whole constructor call, for *any* spelling of every input and every
+    attribute argument: when both `Inputs(...)` and `Attributes(...)` are accepted, the node that
+    `Node.to_onnx` emits has the schema's name and domain, as inputs the schema's formal inputs in
+    schema order bound to the arguments of the same name, trimmed exactly as `emit_slots` says with
+    the schema's `min_input`; one output name per declared output (optional ones included) plus `nvar`
+    for a variadic one — never fewer; and per schema attribute the value given, else the schema
+    default, else nothing. (When either is refused the call raises: `conforming_inputs_total`,
+    `conforming_call_total`.) -/
+theorem conforming_call_full (c : Ctor) (s : Schema) (h : conformsTo c s = true)
+    (inSp : String → InSpell String) (atSp : String → Spell) (nvar : Nat)
+    (ins : List (Arg String)) (ats : List (Option (String × Val)))
+    (hi : callInputsE c inSp = some ins) (ha : callAttrsE c atSp = some ats) :
+    let n : NodeIn String Val :=
+      { opType := c.cls.opName, domain := c.cls.domain, version := c.cls.version,
+        mins := some (s.minInput, s.minOutput), inputs := ins,
+        outputs := initOutputs c.cls.outputs nvar, attrs := ats }
+    (emitNode n).opType = s.name ∧ (emitNode n).domain = s.domain ∧
+    opsetReq n = (s.domain, s.since) ∧
+    (emitNode n).inputs = emitSlots s.minInput (s.inputs.map fun f => acceptedIn f.2 (inSp f.1)) ∧
+    (emitNode n).outputs = flatten (initOutputs s.outputs nvar) ∧
+    (emitNode n).attrs = (List.zipWith (acceptedAttr atSp) s.attrs c.attrWires).filterMap id := by
+  have hin := (conforming_inputs_total c s h inSp).2 ins hi
+  have hat := ((conforming_call_total c s h atSp).2 ats ha).2
+  simp only [conformsTo, Bool.and_eq_true, beq_iff_eq, and_assoc] at h
+  obtain ⟨h1, h2, h3, _, _, _, h6, _⟩ := h
+  refine ⟨h1, h2, by simp [opsetReq, h2, h3], by simp [emitNode, hin], ?_, by simp [emitNode, hat]⟩
+  simp only [emitNode, h6]
+  exact outputs_never_omitted s.minOutput s.outputs nvar
+
+/-- **emit_slots_closed_form.** `Node.to_onnx`'s popping loop, for every field list, every argument
+    assignment and every minimum, is the closed form the per-pair obligations `slots_<m>_<Op>` are
+    stated with: the positional list cut after its last present name, but never below
+    `min(min_input, length)`. -/
+theorem emit_slots_closed_form (minN : Nat) (args : List (Arg String)) :
+    emitSlots minN args = specSlots minN (flatten args) :=
+  emitSlots_closed minN args
+
+open Generated.Conforms in
+/-- every operator/module pair of this run, deviating ones included -/
+def everyPair : List Entry :=
+  v17.allEntries ++ v18.allEntries ++ v19.allEntries ++ v20.allEntries ++ v21.allEntries ++
+  ml_v3.allEntries ++ ml_v4.allEntries ++ ml_v5.allEntries
+
+open Generated.Conforms in
+/-- **table_slotting.** For every shipped operator/module pair (one kernel-decided obligation each,
+    `slots_<m>_<Op>`): on every presence pattern of its inputs — each optional input given or `None`,
+    the variadic one with 0 / 1 / 2 Vars — the constructor call is accepted and the emitted input list
+    is the closed form `specSlots` (the schema's formal inputs in order, cut after the last present
+    one, never below `min_input`); and the number of emitted outputs is the number of declared
+    non-variadic outputs plus the variadic ones requested. -/
+theorem table_slotting : ∀ e ∈ everyPair, slotOK e = true := by
+  intro e he
+  simp only [everyPair, List.mem_append] at he
+  rcases he with ((((((h | h) | h) | h) | h) | h) | h) | h
+  · exact v17.table_slots e h
+  · exact v18.table_slots e h
+  · exact v19.table_slots e h
+  · exact v20.table_slots e h
+  · exact v21.table_slots e h
+  · exact ml_v3.table_slots e h
+  · exact ml_v4.table_slots e h
+  · exact ml_v5.table_slots e h
+
+example : everyPair.length = 980 := by decide +kernel
+
+/-- the closed form on `Clip(x, None, hi)` / `Clip(x, lo, None)` / `Clip(x)` -/
+example : specSlots 1 [some "x", none, some "hi"] = [some "x", none, some "hi"] ∧
+    specSlots 1 [some "x", some "lo", none] = [some "x", some "lo"] ∧
+    specSlots 1 [some "x", none, none] = [some "x"] ∧
+    specSlots 2 [none, none, none] = [none, none] := by decide
 
 /-! ## non-vacuity -/
 
